@@ -20,12 +20,15 @@ MANIFEST = dict(
          "with the two sequential outcomes of the graph (second step of a put = the model's PutLocked in that state), predicates at the quiescent point; "
          "randomized concurrent runs (submitters, actor, evictor, readers) are logged with a global "
          "sequence and validated by TLC against MempoolTrace.tla (linearizability search), predicates evaluated at every quiescent point; "
-         "thorough tier under the race detector.",
+         "thorough tier under the race detector; the block notification is modelled as repaired by f307abce (child of the pool's best block: "
+         "dirty-account scan, any other block: every list; BaseNonceSynced); the pool composed with the chain service and local production "
+         "(NodePool.tla: reorganisations returning transactions, failing roll-forwards, production after a branch switch) is model-checked and its "
+         "behaviours are replayed on a node with the real pool, the pool-side oracles evaluated after every step.",
     note="in-memory state db; zero fee; accounts/amounts abstracted to 2 balances x 2 amounts; the concurrent thread structure follows the node "
          "(getUnconfirmed only from the actor goroutine, block notifications from one goroutine)",
     technique="TLA+/TLC exhaustive model; replay of every TLC transition into the real pool; model-derived lock-gated pair schedules (deterministic "
               "two-call interleavings checked against both sequential outcomes of the TLC graph); TLC trace validation (linearizability) of "
-              "randomized concurrent runs; go -race")
+              "randomized concurrent runs; go -race; NodePool.tla (chain + pool + production) behaviours replayed on a real node with the real pool")
 SPEC_DIR = os.path.join(vlib.SPEC, "mempool")
 SEP = " ## "
 
@@ -553,6 +556,13 @@ def run(c):
     if ok2:
         raise vlib.Infra("binding self-test failed: corrupted trace accepted")
     c.notes.append("self-test: trace with put result flipped at event %d rejected at event %d" % (i, first + reached2))
+
+    # 4. the pool composed with the chain service and local production (spec/node/NodePool.tla): behaviours with
+    #    reorganisations, failing roll-forwards and production replayed on a node with the REAL pool; the pool-side oracles
+    #    (nothing stale, nothing of the main chain pooled, offered runs gap-free from state+1, returned transactions pooled,
+    #    counters) belong to C13.  Fewer behaviours than C04 runs in the quick tier (wall time).
+    from checks import nodepool_common
+    nodepool_common.run_nodepool(c, "C13", quick_cover=140, quick_sim=50)
 
 
 def _stacks(rep):
